@@ -6,8 +6,9 @@ CONSTANTS
   MaxHunks = 2
   MaxBody = 4
   Preamble = TRUE
+  MaxConf = 1
   Buf = 0
-  Fixes = {"D1", "D14"}
+  Fixes = {"D1", "D14", "D2"}
 VIEW View
 ACTION_CONSTRAINT Edge
 CHECK_DEADLOCK FALSE
